@@ -1,4 +1,5 @@
 (* C12 - any input is either loaded or rejected with a diagnostic.  Statements only. *)
+From Coq Require Import String.
 From N2 Require Import Model.All.
 From N2 Require Import Proofs.ParseSpec.
 From N2 Require Import Proofs.DepfileSafe Proofs.ParseSafeWit Proofs.ParseSafeScan Proofs.ParseSafeStmt Proofs.ParseSafeLoad Proofs.ParseSafeErr.
@@ -22,6 +23,10 @@ Print Assumptions C12_manifest_safe.
 Theorem C12_manifest_panic0 : forall depth fs name text, load_manifest true depth fs name text = Panic 0%N -> name = [].
 Proof. exact manifest_panic0. Qed.
 Print Assumptions C12_manifest_panic0.
+
+Theorem C12_include_cycle_rejected : load_manifest true 5 [(bs "build.ninja", bs "include build.ninja" ++ [10%N])] (bs "build.ninja") (bs "include build.ninja" ++ [10%N]) = Err (bs "build.ninja: build.ninja includes itself").
+Proof. exact include_cycle_rejected. Qed.
+Print Assumptions C12_include_cycle_rejected.
 
 Theorem C12_error_format : forall text filename s vs m o, good_scanner text s -> parser_read true (parse_fuel (text ++ [0%N])) s vs = SErr m o -> exists lno ctx pad, (1 <= lno)%nat /\ (length (error_prefix filename lno) <= pad)%nat /\ format_parse_error (text ++ [0%N]) filename m o = Ok (error_text filename m lno ctx pad).
 Proof. exact error_format. Qed.
